@@ -212,6 +212,24 @@ func genUniform(t *rapid.T, label string, p *big.Int) *big.Int {
 	return v.Mod(v, p)
 }
 
+// genSize draws a size parameter (number of nodes / coefficients / rows / columns). Normally it
+// is lo..hi, the range the quick tier is budgeted for; one draw in oneIn takes a value from tail
+// instead. The library (mat, polynomials, lagrange, vandermonde, birkhoff) imposes no upper
+// limit on any of these sizes (only >= 1), so the tails reach past the small range: 9..17 are
+// the party counts of larger deployments, 12/13 straddle the insertion-sort cut-off of sort.Sort
+// (birkhoff SortNodes), 15..17 / 31..33 / 63..65 straddle the bit lengths of the native
+// multiplier in Polynomial.Derivative (algebrautils.ScalarMulNative(coeff, uint64(i))).
+func genSize(t *rapid.T, label string, lo, hi, oneIn int, tail []int) int {
+	if rapid.IntRange(1, oneIn).Draw(t, label+".tail") == oneIn {
+		return rapid.SampledFrom(tail).Draw(t, label+".big")
+	}
+	return rapid.IntRange(lo, hi).Draw(t, label)
+}
+
+// matDimTail: matrix dimensions above the usual 1..7 (pure field arithmetic, O(n^3) in the
+// library and in refmat alike, so still cheap).
+var matDimTail = []int{8, 9, 12, 13, 16, 17, 24}
+
 func genVec(t *rapid.T, label string, p *big.Int, n int) []*big.Int {
 	out := make([]*big.Int, n)
 	for i := range out {
